@@ -206,6 +206,7 @@ pub enum WorkerMsg {
     Violation(Box<ReplayFile>, Box<ReplayFile>),
     Harness(String),
     Summary(Box<WorkerSummary>),
+    Done,
 }
 
 fn emit(m: &WorkerMsg) {
@@ -259,6 +260,7 @@ pub fn worker<P: Prop>(
     let t0 = Instant::now();
     let mut sum = WorkerSummary::default();
     let mut keys: HashSet<u64> = HashSet::new();
+    let mut last_flush = Instant::now();
     let mut idx = start;
     let mut code = 0;
     while idx < total {
@@ -335,9 +337,18 @@ pub fn worker<P: Prop>(
             }
         }
         idx += stride;
+        // flush what has been gathered so far, so that a worker killed by the code under
+        // test (or by the per-run time limit) loses nothing but the run that killed it
+        if last_flush.elapsed() > Duration::from_millis(300) {
+            let mut part = std::mem::take(&mut sum);
+            part.keys = keys.drain().collect();
+            emit(&WorkerMsg::Summary(Box::new(part)));
+            last_flush = Instant::now();
+        }
     }
     sum.keys = keys.into_iter().collect();
     emit(&WorkerMsg::Summary(Box::new(sum)));
+    emit(&WorkerMsg::Done);
     sandbox_done(&root);
     code
 }
@@ -393,6 +404,7 @@ pub fn replay<P: Prop>(verif_dir: &str, file: &str, expect: bool) -> i32 {
                 );
                 if let Some(k) = P::known_finding(&wl, &rep, &known) {
                     println!("KNOWN-FINDING: property={} {}", P::id(), k);
+                    return if expect { 3 } else { 0 };
                 }
                 if same_inv && same_msg && same_log {
                     println!("VIOLATION property={} replay={}", P::id(), file);
@@ -414,6 +426,60 @@ pub fn replay<P: Prop>(verif_dir: &str, file: &str, expect: bool) -> i32 {
             }
         },
     }
+}
+
+/// `dsim minimise <file>`: shrink a replay file (any violation it produces), write <file>.min.json
+pub fn minimise_file<P: Prop>(verif_dir: &str, file: &str, budget_s: u64) -> i32 {
+    let known = load_known(verif_dir);
+    let rf: ReplayFile = match std::fs::read_to_string(file)
+        .ok()
+        .and_then(|s| serde_json::from_str(&s).ok())
+    {
+        Some(r) => r,
+        None => {
+            eprintln!("cannot read replay file {}", file);
+            return 2;
+        }
+    };
+    let wl: P::W = match serde_json::from_value(rf.workload.clone()) {
+        Ok(w) => w,
+        Err(e) => {
+            eprintln!("bad workload: {}", e);
+            return 2;
+        }
+    };
+    let root = sandbox_init();
+    P::init_process();
+    let first = match replay_run::<P>(&wl, &rf.tape, rf.entropy_seed) {
+        Ok(r) => r,
+        Err(e) => {
+            eprintln!("harness error: {}", e);
+            sandbox_done(&root);
+            return 2;
+        }
+    };
+    let inv = match &first.violation {
+        Some(v) => v.invariant.clone(),
+        None => {
+            println!("no violation to minimise");
+            sandbox_done(&root);
+            return 0;
+        }
+    };
+    let (mw, _mt, mr, tried) = minimise::<P>(
+        &wl,
+        &first.tape,
+        rf.entropy_seed,
+        &inv,
+        &known,
+        Duration::from_secs(budget_s),
+    );
+    sandbox_done(&root);
+    let out = mk_replay::<P>(rf.verif_seed, rf.run_index, rf.entropy_seed, rf.thorough, true, &mw, &mr);
+    let path = format!("{}.min.json", file.trim_end_matches(".json"));
+    std::fs::write(&path, serde_json::to_string_pretty(&out).unwrap()).ok();
+    println!("minimised after {} candidate runs: {}", tried, path);
+    0
 }
 
 // ---------------------------------------------------------------------------------------
@@ -498,6 +564,24 @@ pub fn check<P: Prop>(o: &CheckOpts) -> i32 {
                     .spawn()
                     .expect("spawn worker");
                 let rd = BufReader::new(child.stdout.take().unwrap());
+                // a run that exceeds the per-run wall-clock limit (a compile that does not
+                // terminate in reasonable time is C10's business, not ours) gets its worker
+                // killed; the run is tallied as aborted and the sweep continues after it
+                let beat = std::sync::Arc::new(std::sync::Mutex::new((Instant::now(), false)));
+                let beat2 = beat.clone();
+                let pid = child.id() as i32;
+                let limit = Duration::from_secs(if thorough { 240 } else { 30 });
+                let watcher = std::thread::spawn(move || loop {
+                    std::thread::sleep(Duration::from_millis(500));
+                    let (t, done) = *beat2.lock().unwrap();
+                    if done {
+                        break;
+                    }
+                    if t.elapsed() > limit {
+                        unsafe { libc::kill(pid, libc::SIGKILL) };
+                        break;
+                    }
+                });
                 let mut last_begin: Option<u64> = None;
                 let mut got_summary = false;
                 for line in rd.lines() {
@@ -506,11 +590,14 @@ pub fn check<P: Prop>(o: &CheckOpts) -> i32 {
                         Err(_) => break,
                     };
                     match serde_json::from_str::<WorkerMsg>(&line) {
-                        Ok(WorkerMsg::Begin(i)) => last_begin = Some(i),
+                        Ok(WorkerMsg::Begin(i)) => {
+                            last_begin = Some(i);
+                            beat.lock().unwrap().0 = Instant::now();
+                        }
                         Ok(WorkerMsg::Violation(a, b)) => agg.violations.push((*a, *b)),
                         Ok(WorkerMsg::Harness(e)) => agg.harness.push(e),
+                        Ok(WorkerMsg::Done) => got_summary = true,
                         Ok(WorkerMsg::Summary(s)) => {
-                            got_summary = true;
                             let s = *s;
                             agg.sum.runs += s.runs;
                             agg.sum.steps += s.steps;
@@ -540,6 +627,8 @@ pub fn check<P: Prop>(o: &CheckOpts) -> i32 {
                     }
                 }
                 let st = child.wait().ok();
+                beat.lock().unwrap().1 = true;
+                let _ = watcher.join();
                 if got_summary {
                     break;
                 }
